@@ -42,12 +42,14 @@ SINK_OPS = ("call_stmt", "object_call", "object_call_stmt", "field_write", "reco
 
 class Rule:
     """One configured rule. side: source|sink.  Restrictions that are None/'' do not restrict."""
-    __slots__ = ("side", "operation", "name", "key", "target", "lang", "unit_name", "line_num", "note")
+    __slots__ = ("side", "operation", "name", "key", "target", "lang", "unit_name", "line_num", "note", "unit_path")
 
-    def __init__(self, side, operation, name=None, key=None, target=None, lang="python", unit_name=None, line_num=None, note=""):
+    def __init__(self, side, operation, name=None, key=None, target=None, lang="python", unit_name=None, line_num=None, note="",
+                 unit_path=None):
         self.side, self.operation, self.name, self.key = side, operation, name, key
         self.target = list(target) if target is not None else None
         self.lang, self.unit_name, self.line_num, self.note = lang, unit_name, line_num, note
+        self.unit_path = unit_path       # file name relative to the project; written to the settings as <project dir>/<name>
 
     def to_json(self):
         return {k: getattr(self, k) for k in self.__slots__}
@@ -57,8 +59,10 @@ class Rule:
         return Rule(**{k: d.get(k) for k in Rule.__slots__ if k in d})
 
     def restriction_ok(self, file, line, lang="python", relax=()):
-        """Documented filters: language group, unit name (basename), line."""
+        """Documented filters: language group, unit name (basename), unit path (the unit's own path), line."""
         if "language" not in relax and self.lang not in (None, ANY_LANG, lang):
+            return False
+        if "path" not in relax and self.unit_path and self.unit_path != file:
             return False
         if "unit" not in relax and self.unit_name and self.unit_name != os.path.basename(file):
             return False
@@ -66,7 +70,7 @@ class Rule:
             return False
         return True
 
-    def yaml_item(self):
+    def yaml_item(self, proj_dir=None):
         out = [f"    - operation: {self.operation}"]
         if self.name is not None:
             out.append(f"      name: \"{self.name}\"")
@@ -75,10 +79,12 @@ class Rule:
         if self.side == "source" and self.operation in ("call_stmt", "object_call", "object_call_stmt"):
             out.append("      tag: [\"%target\"]")
         if self.side == "sink":
-            out.append("      target: [" + ", ".join(self.target or []) + "]")
+            out.append("      target: [" + ", ".join("'" + t + "'" for t in (self.target or [])) + "]")
             out.append("      vuln_type: generated")
         if self.unit_name:
             out.append(f"      unit_name: \"{self.unit_name}\"")
+        if self.unit_path:
+            out.append(f"      unit_path: \"{os.path.join(proj_dir or '/nonexistent-project', self.unit_path)}\"")
         if self.line_num:
             out.append(f"      line_num: {int(self.line_num)}")
         return "\n".join(out)
@@ -101,7 +107,7 @@ class RuleSet:
     def from_json(lst):
         return RuleSet([Rule.from_json(d) for d in lst])
 
-    def yaml(self, side):
+    def yaml(self, side, proj_dir=None):
         """Text of source.yaml / sink.yaml: one group per language, in first-appearance order."""
         groups = {}
         for r in self.rules:
@@ -111,7 +117,7 @@ class RuleSet:
             return "[]\n"
         parts = []
         for lang, rs in groups.items():
-            parts.append(f"- lang: {lang}\n  rules:\n" + "\n".join(r.yaml_item() for r in rs))
+            parts.append(f"- lang: {lang}\n  rules:\n" + "\n".join(r.yaml_item(proj_dir) for r in rs))
         return "\n".join(parts) + "\n"
 
 
